@@ -375,6 +375,59 @@ def rule_dup_stores(chk, rid, families=None, floor=20, also=None):
     return r
 
 
+BYTEORDER_BASELINE = _os.path.join(_os.path.dirname(DU_BASELINE), 'byteorder_baseline.json')
+
+
+def write_byteorder_baseline():
+    from .. import byteorder
+    cur = byteorder.all_units()
+    units = {}
+    for rel, r in sorted(cur.items()):
+        c = {}
+        for f in r['findings']:
+            c[f['fn']] = c.get(f['fn'], 0) + 1
+        units[rel] = {'functions': r['functions'], 'conflicts': c}
+    with open(BYTEORDER_BASELINE, 'w') as fh:
+        _json.dump({'what': 'per assembly unit: routines in which the byte-order typestate (imbv/byteorder.py) already meets a conflict on the '
+                            'reference tree (registers re-used for unrelated values in the GCM / ChaCha20-Poly1305 SSE code): those routines are '
+                            'not decided', 'units': units}, fh, indent=0)
+    return len(units), sum(len(v['conflicts']) for v in units.values())
+
+
+def rule_byte_order(chk, rid, families=None, floor=100, also=None):
+    """typestate of vector registers: a register that holds a value in memory byte order on one path and byte-reflected (pshufb with a
+    constant mask applied an odd number of times) on another is not read where the paths meet"""
+    from .. import byteorder
+    r = chk.rule(rid, 'no vector register is read where it can arrive both byte-reflected (odd number of `pshufb reg, [mask]`) and not reflected: a '
+                      'reflection dropped, added or hoisted out of a loop on one edge only (routines whose reference version already has such a '
+                      'meeting point are not decided)', floor=floor)
+    try:
+        base = _json.load(open(BYTEORDER_BASELINE))['units']
+    except (OSError, ValueError):
+        chk.broken('%s: byte-order baseline missing' % rid)
+        return r
+    for rel, res in sorted(byteorder.all_units().items()):
+        fam = 'mgr' if '/mb_mgr_' in rel else family_of(rel, '')
+        if families is not None and fam not in families and not (also and re.search(also, rel)):
+            continue
+        b = base.get(rel)
+        if b is None:
+            continue                    # a new unit: nothing to compare with
+        by = {}
+        for f in res['findings']:
+            by.setdefault(f['fn'], []).append(f)
+        for fn, fs in sorted(by.items()):
+            if b['conflicts'].get(fn):
+                continue                # not decided (see baseline)
+            f = fs[0]
+            r.bad('%s:%s' % (rel, fn), rel, '%s (%s): `%s` at +%#x reads xmm%d, which arrives there byte-reflected on one path and not reflected on '
+                                            'another (a `pshufb` with a constant mask is applied on one edge only)' % (
+                                                fn, rel, ' '.join(f['txt'].split()), f['a'], f['reg']))
+        for i in range(max(0, res['functions'] - len(by))):
+            r.ok('%s#%d' % (rel, i))
+    return r
+
+
 UNREACH_BASELINE = _os.path.join(_os.path.dirname(DU_BASELINE), 'unreach_baseline.json')
 
 
